@@ -29,7 +29,7 @@ RULE = (
     "nothing is reported after an error. Non-trivial: >= 2 matches, or macro files needed, or a failing/usage case; distinct by canonical hash."
 )
 ASSUMPTIONS = ["the CLI logs to stderr at INFO level by default (as shipped); 'Matched address: X' lines carry the API's list elements verbatim"]
-FLOORS = {"macro-files-not-in-alphabetical-order": 0.03, "kind=match": 0.5, "kind=failing": 0.08, "kind=usage": 0.03, "opt=all-matches": 0.25, "opt=only-address": 0.25, "macro-files": 0.15, "binary": 0.08, "extra=debug": 0.05, "opt-spelling=abbrev": 0.1, "opt-spelling=long": 0.2, "entry=console-script": 0.1, "relpaths=symlink-dotdot": 0.01, "via-stdin=input": 0.02}
+FLOORS = {"macro-files-not-in-alphabetical-order": 0.03, "kind=match": 0.5, "kind=failing": 0.08, "kind=usage": 0.03, "opt=all-matches": 0.25, "opt=only-address": 0.25, "macro-files": 0.15, "binary": 0.08, "extra=debug": 0.05, "opt-spelling=abbrev": 0.1, "opt-spelling=long": 0.2, "entry=console-script": 0.1, "relpaths=symlink-dotdot": 0.01, "odd-input-file-name": 0.1, "via-stdin=input": 0.02}
 LINE = re.compile(r"Matched address: (.*)$")  # any line, whatever logger format it is printed in: the statement counts lines
 
 
@@ -163,6 +163,14 @@ def evaluate(case):
     if binary and case.get("container"):
         input_path, ctag = contain(sc, input_path, case)
         ev.tags.append(ctag)
+    if not case.get("relpaths") and opts.get("order", 0) % 4 == 1 and os.path.isfile(input_path):
+        # file names are the user's business: a URL-escaped name as a browser saves it, blanks, braces, shell metacharacters
+        odd = ["dump%20of%20lib foo", "a%d.b%s", "list&ing$HOME;x", "d\u00e9sassembl\u00e9 (1)", "100%_{0}_#2"][opts["order"] // 4 % 5] + os.path.splitext(input_path)[1]
+        newp = os.path.join(os.path.dirname(input_path), odd)
+        with open(input_path, "rb") as f_, open(newp, "wb") as g_:
+            g_.write(f_.read())
+        input_path = newp
+        ev.tags.append("odd-input-file-name")
     mn_full, op_full = case.get("flags", [False, False])
     doc = jasm_io.make_doc(pattern, mn_full or None, op_full or None, macros=doc_macros, config={"sections": case["sections_cfg"]} if case.get("sections_cfg") else None)
     rule_path = sc.write("c20_rule.yaml", jasm_io.rule_text(doc))
